@@ -736,7 +736,8 @@ pub fn checkpoint(w: &mut World, s: &mut Session) -> Result<(), Violation> {
                 }
             }
         }
-        let _ = guarded(|| std::mem::forget(fs2));
+        // the snapshot session is simply dropped (its unmount writes go to the private copy)
+        let _ = guarded(|| drop(fs2));
         // (i') through the live session, with extents
         let root = s.fs.root_dir();
         lib_tree_check(w, &root, &[], prop, false)?;
